@@ -78,4 +78,34 @@ TableFrom(s, ts, k, at) ==
 (* the token table without the final EOF row *)
 Table(s) == TableFrom(s, Tokens(s), 1, 1)
 IsTriviaKind(k) == k \in {"WHITESPACE", "COMMENT"}
+
+(***************************************************************************)
+(* Text written in the specs as a TLA+ string -> the model's characters.     *)
+(* %%XXXX; stands for the code point U+XXXX (TLC cannot print non-ASCII       *)
+(* text); the escapes the spec suite uses are mapped to their class.         *)
+(***************************************************************************)
+EscClass == [ x \in {"03C0", "03C4", "2107", "03B8", "5909", "6570", "00E9", "00B5", "1F600"} |->
+              CASE x = "00B5" -> "<mu>" [] x = "1F600" -> "<emoji>" [] OTHER -> "<idstart>" ]
+RECURSIVE Decode(_, _)
+Decode(str, i) ==
+  IF i > Len(str) THEN <<>>
+  ELSE IF i + 1 <= Len(str) /\ SubSeq(str, i, i + 1) = "%%" THEN
+         LET j == CHOOSE j \in (i + 2)..Len(str) : SubSeq(str, j, j) = ";" /\ \A m \in (i + 2)..(j - 1) : SubSeq(str, m, m) # ";"
+         IN <<EscClass[SubSeq(str, i + 2, j - 1)]>> \o Decode(str, j + 1)
+       ELSE <<SubSeq(str, i, i)>> \o Decode(str, i + 1)
+ModelChars(str) == Decode(str, 1)
+
+(***************************************************************************)
+(* LexedStr::to_input (shortcuts.rs): the parser's Input - the non-trivia    *)
+(* rows as [k, j]; a token is joint when the next row follows it without     *)
+(* trivia, and a FLOAT_NUMBER that does not end in '.' is always joint.      *)
+(***************************************************************************)
+ToInput(s) ==
+  LET tab == Table(s)
+      idx == SelectSeq([i \in 1..Len(tab) |-> i], LAMBDA i : ~IsTriviaKind(tab[i].kind))
+  IN [k \in 1..Len(idx) |->
+        LET r == tab[idx[k]] IN
+        [k |-> r.kind,
+         j |-> (idx[k] + 1 <= Len(tab) /\ ~IsTriviaKind(tab[idx[k] + 1].kind)) \/ (r.kind = "FLOAT_NUMBER" /\ s[r.st + r.n - 1] # ".")]]
+LexErrors(s) == SelectSeq(Table(s), LAMBDA x : x.err # "")
 =============================================================================
